@@ -306,4 +306,22 @@ pub fn resolve_real(
     })
 }
 
+/// `resolve_real` over a store that cannot load one event (a server that has not received it yet)
+pub fn resolve_real_hiding(
+    v: u8,
+    store: &Store,
+    hidden: &str,
+    sets: &[SMap],
+    chains: &[BTreeSet<String>],
+) -> Result<Result<SMap, String>, Panicked> {
+    let rules = auth_rules(v);
+    let real_sets: Vec<StateMap<OwnedEventId>> = sets.iter().map(to_real_map).collect();
+    let real_chains: Vec<VSet<OwnedEventId>> = chains.iter().map(to_real_chain).collect();
+    catch(|| {
+        ruma_state_res::resolve(&rules, &real_sets, real_chains, |id| if id.as_str() == hidden { None } else { store.pdu(id) })
+            .map(|m| from_real_map(&m))
+            .map_err(|e| e.to_string())
+    })
+}
+
 pub type Graph = VMap<OwnedEventId, VSet<OwnedEventId>>;
